@@ -77,12 +77,13 @@ def gen_table(rng, kinds=None, nrows=None):
     from beancount.core import amount, position, inventory
     from beancount.core.data import Cost
     from beanquery import Column
-    all_kinds = ['int', 'decimal', 'str', 'date', 'bool', 'set', 'dict', 'object', 'amount', 'position', 'inventory', 'cost']
+    all_kinds = ['int', 'decimal', 'str', 'date', 'bool', 'set', 'dict', 'object', 'amount', 'position', 'inventory', 'cost', 'meta']
+    from beanquery.sources import beancount as _src
     wide = kinds is None and rng.random() < 0.05       # now and then: many columns, many rows, long and large values
     if kinds is None:
         kinds = [rng.choice(all_kinds) for _ in range(rng.randint(1, 5) if not wide else rng.randint(6, 12))]
     dtypes = {'int': int, 'decimal': Decimal, 'str': str, 'date': datetime.date, 'bool': bool, 'set': set, 'dict': dict, 'object': object,
-              'amount': amount.Amount, 'position': position.Position, 'inventory': inventory.Inventory, 'cost': Cost}
+              'amount': amount.Amount, 'position': position.Position, 'inventory': inventory.Inventory, 'cost': Cost, 'meta': _src.Metadata}
     names = []
     for i, k in enumerate(kinds):
         names.append(rng.choice([f'c{i}', k, f'a_rather_long_column_name_{i}', 'x', f'sum({k})', 'é']))
@@ -121,6 +122,14 @@ def gen_table(rng, kinds=None, nrows=None):
             return frozenset(rng.sample(['alpha', 'b', 'c-c', 'dd', 'trip'], rng.randint(0, 3)))
         if k == 'dict':
             return rng.choice([{}, {'a': 1}, {'k': 'v', 'n': D('1.5')}])
+        if k == 'meta':
+            # directive metadata: the parser's position keys are not shown, every other key is (also keys that resemble them)
+            m = {'filename': '/tmp/x.beancount', 'lineno': rng.randint(1, 99)}
+            for key in rng.sample(['name', 'file', 'line', 'no', 'lin', 'note', 'isin', 'ref', 'filenames', 'lineno2', 'e'], rng.randint(0, 4)):
+                m[key] = rng.choice(['Hooli Inc.', D('1.5'), 7, True, datetime.date(2020, 1, 2)])
+            if rng.random() < 0.3:
+                m['__tolerances__'] = {}
+            return m
         if k == 'object':
             return rng.choice([D('2.5'), 'text', 7, datetime.date(2020, 1, 1), True])
         if k == 'amount':
@@ -174,6 +183,8 @@ def expected_text(v, kind, dc, listsep):
         return listsep.join(sorted(v))
     if kind in ('dict', 'object'):
         return str(v)
+    if kind == 'meta':
+        return str({k: x for k, x in v.items() if k not in ('filename', 'lineno') and not k.startswith('__')})
     return None
 
 
